@@ -39,14 +39,14 @@ def faulted(rnd, stream, app, tier):
         return sc
     whole = scen.chunkings(rnd, stream, "random")
     # connect failures
-    for how in ("sockfail", "exc"):
-        sc = mk(scen.steps_from_chunks(whole), connect=how)
+    for how in ("sockfail", "exc", "exc", "exc", "exc", "exc"):
+        sc = mk(scen.steps_from_chunks(whole), connect=how, salt=len(scs))
         sc["_fault"] = "connect-" + how
         scs.append(sc)
     # k-th sendall fails (0 = upgrade request)
     for k in range(0, 6):
         for wf in ("oserr", "exc"):
-            sc = mk(scen.steps_from_chunks(whole, dt=1024), wfaults=["ok"] * k + [wf])
+            sc = mk(scen.steps_from_chunks(whole, dt=1024), wfaults=["ok"] * k + [wf], salt=rnd.randrange(0, 7))
             sc["_fault"] = "sendall-%d-%s" % (k, wf)
             scs.append(sc)
             # the same write fault, followed by a silent peer (no EOF): only a timeout can end the connection
@@ -162,6 +162,78 @@ class FakeSockMod(object):
         return s
 
 
+# ---------------------------------------------------------------- the real selector on a real descriptor
+def real_selector_family(rep):
+    """the platform selector (poll/select) on a real socketpair: when the descriptor is closed under the running loop --
+    session.close() from another thread, as `with ws:` does, or the socket object closed directly -- the iterator must
+    still end with Disconnected"""
+    import base64
+    import hashlib
+    import socket as rsock
+    import threading
+    import time as rtime
+    import lomond.session as S
+    import lomond.websocket as W
+    n = 0
+    for how in ("session.close", "socket.close"):
+        a, b = rsock.socketpair()
+        b.settimeout(5)
+
+        class Sess(S.WebsocketSession):
+            def _connect(self):
+                return a, None
+        ws = W.WebSocket("ws://example.test/")
+        events = []
+        done = threading.Event()
+
+        def run():
+            try:
+                for ev in ws.connect(session_class=Sess, poll=0.2, ping_rate=0, close_timeout=None):
+                    events.append(ev.name)
+            except BaseException as e:
+                events.append("escaped:" + type(e).__name__)
+            done.set()
+        th = threading.Thread(target=run)
+        th.daemon = True
+        th.start()
+        try:
+            req = b""
+            while b"\r\n\r\n" not in req:
+                req += b.recv(4096)
+            key = [l.split(b":", 1)[1].strip() for l in req.split(b"\r\n") if l.lower().startswith(b"sec-websocket-key")][0]
+            acc = base64.b64encode(hashlib.sha1(key + b"258EAFA5-E914-47DA-95CA-C5AB0DC85B11").digest())
+            b.sendall(b"HTTP/1.1 101 Switching Protocols\r\nUpgrade: websocket\r\nConnection: Upgrade\r\nSec-WebSocket-Accept: " + acc + b"\r\n\r\n")
+            t0 = rtime.time()
+            while "ready" not in events and rtime.time() - t0 < 5:
+                rtime.sleep(0.02)
+            if how == "session.close":
+                ws.session.close()
+            else:
+                a.close()
+            finished = done.wait(6)
+        finally:
+            try:
+                b.close()
+            except Exception:
+                pass
+        n += 1
+        rep.add_case(("real-selector", how))
+        bad = None
+        if "ready" not in events:
+            bad = "harness: the real-socket connection never became ready (events %s)" % events
+            rep.broken(bad)
+            continue
+        if not finished:
+            bad = "the socket's descriptor was closed under the running loop (%s) but the iterator is still waiting after 6 s: events %s" % (how, events[-4:])
+        elif any(e.startswith("escaped:") for e in events):
+            bad = "an exception escaped the iterator after the descriptor was closed (%s): %s" % (how, events[-2:])
+        elif events[-1] != "disconnected":
+            bad = "the iteration ended without Disconnected after the descriptor was closed (%s): %s" % (how, events[-3:])
+        if bad:
+            rep.violation(bad, scenario=dict(kind="real-selector", how=how), family="C09:real-selector")
+    rep.families.append(dict(name="C09:real-selector", cases=n, rule="real socketpair + lomond's platform selector: the descriptor is closed under the running loop by session.close() from another thread or by closing the socket object; Disconnected must follow within seconds"))
+
+
 def connect_each(rep, tier):
     import lomond.session as S
     import lomond.websocket as W
@@ -226,6 +298,7 @@ def run(rep, info, model, tier, seed):
     fam.run_family(rep, model, "C09:fault-at-every-operation", scs, oracle, project=lambda t: t,
                    rule="for each base scenario: connect failure; sendall k=0..5 failing with OSError / arbitrary exception; the stream cut at (nearly) every byte offset followed by EOF / ECONNRESET / RuntimeError; selector wait raising at each step; oracle: nothing escapes next(), no hang, ConnectFail/Disconnected last, graceful=False unless a closing handshake had started, socket closed, application calls raise only WebSocketError subclasses")
     connect_each(rep, tier)
+    real_selector_family(rep)
     if not proof_ok and not rep.violations:
         rep.broken("proof obligation props/C09.v no longer checks: %s" % (rep.coq_failure,))
 
